@@ -7,11 +7,11 @@ git -C /repo worktree add --detach $WT >/dev/null 2>&1 || exit 2
 trap 'git -C /repo worktree remove --force $WT >/dev/null 2>&1' EXIT
 cd $WT
 cmake -G Ninja -B _build -S . >/dev/null 2>&1 && cmake --build _build >/dev/null 2>&1 || { echo "baseline build fails"; exit 3; }
-gcc -I include $D/demo.c _build/src/libjls.a -lm -lpthread -o demo_orig 2>/dev/null || { echo "demo does not compile"; exit 4; }
+gcc -I include -I include_prv $D/demo.c _build/src/libjls.a -lm -lpthread -o demo_orig 2>/dev/null || { echo "demo does not compile"; exit 4; }
 ( cd $WT && timeout 300 ./demo_orig >/dev/null 2>&1 ); R0=$?
 git apply $D/patch.diff || { echo "patch does not apply to HEAD"; exit 5; }
 cmake --build _build >/dev/null 2>&1 || { echo "BUILD FAILS with patch"; exit 6; }
 T=$(ctest --test-dir _build --timeout 900 2>&1 | grep -E "tests passed")
-gcc -I include $D/demo.c _build/src/libjls.a -lm -lpthread -o demo_mut 2>/dev/null
+gcc -I include -I include_prv $D/demo.c _build/src/libjls.a -lm -lpthread -o demo_mut 2>/dev/null
 ( cd $WT && timeout 300 ./demo_mut >/dev/null 2>&1 ); R1=$?
 echo "tests: $T | demo without change: exit $R0 | demo with change: exit $R1"
